@@ -55,7 +55,7 @@ pub fn carriers(bps: u32, n: usize) -> Vec<Vec<i32>> {
 
 #[derive(Clone, Copy, Debug, PartialEq)]
 pub enum Kind {
-    Const, Ramp, Sine, AltExt, Square, Impulse, Spikes, Noise(u64), Wasted(u32), NoisyLow,
+    Const, Ramp, Sine, AltExt, Square, Impulse, Spikes, Noise(u64), Wasted(u32), NoisyLow, Periodic(usize),
 }
 
 /// Signal-family generator (§3.3). `amp_sel` 0: 1, 1: mid, 2: full scale.
@@ -83,6 +83,12 @@ pub fn family(kind: Kind, amp_sel: u32, bps: u32, n: usize) -> Vec<i32> {
                 clamp((r >> w) << w)
             }).collect()
         }
+        Kind::Periodic(p) => {
+            // a p-sample pattern repeated: predicted exactly by an order-p LPC (drives the encoder to the highest orders)
+            let mut l = Lcg(p as u64 * 31 + 5);
+            let pat: Vec<i64> = (0..p).map(|_| (l.next() as i64 % (2 * amp + 1)) - amp).collect();
+            (0..n).map(|i| clamp(pat[i % p])).collect()
+        }
         Kind::NoisyLow => {
             // slow sine + 1 LSB of noise: defeats "constant" detection, tunes Rice estimates low
             let mut l = Lcg(4242);
@@ -90,7 +96,7 @@ pub fn family(kind: Kind, amp_sel: u32, bps: u32, n: usize) -> Vec<i32> {
         }
     }
 }
-pub const KINDS: &[Kind] = &[Kind::Const, Kind::Ramp, Kind::Sine, Kind::AltExt, Kind::Square, Kind::Impulse, Kind::Spikes, Kind::Noise(0), Kind::Noise(1), Kind::Wasted(1), Kind::Wasted(5), Kind::NoisyLow];
+pub const KINDS: &[Kind] = &[Kind::Const, Kind::Ramp, Kind::Sine, Kind::AltExt, Kind::Square, Kind::Impulse, Kind::Spikes, Kind::Noise(0), Kind::Noise(1), Kind::Wasted(1), Kind::Wasted(5), Kind::NoisyLow, Kind::Periodic(32), Kind::Periodic(12)];
 
 pub const RATES: &[u32] = &[44100, 0, 1, 8000, 16000, 22050, 24000, 32000, 48000, 88200, 96000, 176400, 192000, 255000, 254999, 65535, 65536, 655350, 655351, 1048575];
 
@@ -256,7 +262,7 @@ pub fn enumerate(ctx: &Ctx, parts: &str, f: &mut dyn FnMut(&EncCase)) {
         for_each_deviation(&menus, if q { 2 } else { 3 }, |v| {
             let opt = OptMenu::pick(v);
             let b = opt.block as usize;
-            for bps in [8u32, 16, 32] {
+            for bps in [8u32, 12, 16, 32] {
                 for &kind in &adv {
                     for ch in [1u8, 2] {
                         if b > 4096 && (bps != 16 || ch == 2) {
@@ -287,7 +293,9 @@ pub fn enumerate(ctx: &Ctx, parts: &str, f: &mut dyn FnMut(&EncCase)) {
             if bs == 65535 {
                 lens = vec![b, b + 1, b + 33];
             }
-            for bps in [8u32, 16, 24, 32] {
+            // depths that are not a whole number of bytes (12, 20) on the small blocks in the quick tier, everywhere in thorough
+            let depths: &[u32] = if !q || bs <= 192 { &[8, 12, 16, 20, 24, 32] } else { &[8, 16, 24, 32] };
+            for &bps in depths {
                 for &kind in KINDS {
                     for amp in 0..3u32 {
                         for &len in &lens {
